@@ -14,9 +14,9 @@ mkdir -p ../.build
 ) 8>../.build/.lock.coqmake
 T=${COQ_MAKE_TIMEOUT:-1500}
 if [ $# -eq 0 ]; then
-  timeout $T make -f Makefile.coq -k -j16 2>&1; rc=$?
+  timeout $T make -f Makefile.coq -k -j16 -l 24 2>&1; rc=$?
 else
-  timeout $T make -f Makefile.coq -k -j8 "$@" 2>&1; rc=$?
+  timeout $T make -f Makefile.coq -k -j8 -l 24 "$@" 2>&1; rc=$?
 fi
 [ $rc -ne 0 ] && exit $rc
 mkdir -p ../.build/work
